@@ -7,7 +7,7 @@ immediately, when the explorer says so, or never.
 import hashlib
 
 import bv  # noqa: F401
-from bacpypes.app import Application, ApplicationIOController
+from bacpypes.app import Application, ApplicationIOController, DeviceInfoCache
 from bacpypes.appservice import StateMachineAccessPoint, ApplicationServiceAccessPoint
 from bacpypes.netservice import NetworkServiceAccessPoint, NetworkServiceElement
 from bacpypes.comm import bind
@@ -156,7 +156,7 @@ class _StackMixin(object):
 
     def do_IAmRequest(self, apdu):
         self.iam_seen.append((str(apdu.pduSource), apdu.iAmDeviceIdentifier))
-        self.deviceInfoCache.iam_device_info(apdu)
+        self.callers_cache.iam_device_info(apdu)
 
     # ---- client side
     def make_request(self, peer, req_len, service_number=1, invoke=None):
@@ -179,7 +179,10 @@ class _StackMixin(object):
 
 class PlainApp(_StackMixin, Application):
     def __init__(self, device, mac, net, **kw):
-        Application.__init__(self, device)
+        # the program creates the device information cache itself, hands it to the application and keeps its own reference
+        # (as a program with a persistent cache does); everything the harness files goes through that reference
+        self.callers_cache = DeviceInfoCache()
+        Application.__init__(self, device, deviceInfoCache=self.callers_cache)
         self._wire(device, mac, net, **kw)
 
     def submit(self, peer, req_len, service_number=1, invoke=None):
@@ -193,7 +196,8 @@ class PlainApp(_StackMixin, Application):
 
 class IOApp(_StackMixin, ApplicationIOController):
     def __init__(self, device, mac, net, **kw):
-        ApplicationIOController.__init__(self, device)
+        self.callers_cache = DeviceInfoCache()
+        ApplicationIOController.__init__(self, device, deviceInfoCache=self.callers_cache)
         self._wire(device, mac, net, **kw)
         self.iocbs = []
         self.chain = []             # (peer, req_len, service_number) submitted one by one from the completion callbacks
